@@ -554,6 +554,26 @@ class Discharger:
             return None
         op = e['op']
         l, r = e['l_'], e['r_']
+        if op in ('+=',) and r['k'] == 'Lit' and r['lit'].get('digits') == '1' and l['k'] == 'Path' and len(l['path']['segs']) == 1:
+            # a counter: `let mut n = 0;` and nothing but `n += 1` once per iteration of `for` loops over in-memory collections: n is at
+            # most the number of elements visited, which an address space cannot make exceed usize::MAX / isize::MAX
+            d = s.ev.scope.lookup(l['path']['s'])
+            if d is not None and d.kind == 'let' and d.init is not None and d.init['k'] == 'Lit' and d.init['lit'].get('digits') == '0' \
+                    and not any(c['k'] in ('for', 'loop') for c in d.ctx):
+                steps = [a for a in d.assigns]
+                okc = bool(steps)
+                for a in steps:
+                    txt = es(a.value).replace(' ', '') if getattr(a, 'value', None) is not None else ''
+                    loops_ = [c for c in a.ctx if c['k'] in ('for', 'loop') and c not in d.ctx]
+                    if getattr(a, 'op', '+=') not in ('+=',) and txt not in ('1',):
+                        okc = False
+                    if not loops_ or any(c['k'] == 'loop' for c in loops_):
+                        okc = False
+                    for c in loops_:
+                        if c['k'] == 'for' and c['iter']['k'] == 'Range':
+                            okc = False
+                if okc:
+                    return ('R7-element-counter', 'a counter started at 0 and incremented by one per element of in-memory collections')
         cv = [const_eval(e, w) for w in (16, 32, 64)]
         if all(c is not None for c in cv):
             return ('R7-const', 'constant expression, evaluated exactly for 16/32/64-bit pointer widths without leaving its type (%s)' % cv[-1][0])
